@@ -43,7 +43,11 @@ def from_text(text: str) -> int:
     """
 
     if text.isdecimal():
-        total = int(text)
+        try:
+            total = int(text)
+        except ValueError:
+            # more digits than int() accepts
+            raise BadTTL
     elif len(text) == 0:
         raise BadTTL
     else:
